@@ -314,6 +314,28 @@ theorem Q.le_trans (a b c : Q) : Q.le a b = true → Q.le b c = true → Q.le a 
     _ ≤ c.num * 10 ^ b.scale * 10 ^ a.scale := Nat.mul_le_mul_right _ h2
     _ = c.num * 10 ^ a.scale * 10 ^ b.scale := by rw [Nat.mul_right_comm]
 
+theorem specLe_totalPre : TotalPre specLe := ⟨specLe_total, specLe_trans⟩
+theorem qle_totalPre : TotalPre Q.le := ⟨Q.le_total, Q.le_trans⟩
+
+theorem zip_map_find {α β : Type} (f : α → β) (p : α × β → Bool) (l : List α) (x : α × β)
+    (h : (l.zip (l.map f)).find? p = some x) : x.1 ∈ l ∧ x.2 = f x.1 ∧ p x = true := by
+  have hm := List.mem_of_find?_eq_some h
+  have hp := List.find?_some h
+  refine ⟨?_, ?_, hp⟩
+  · exact (List.of_mem_zip hm).1
+  · have : ∀ (l : List α) (x : α × β), x ∈ l.zip (l.map f) → x.2 = f x.1 := by
+      intro l
+      induction l with
+      | nil => intro x hx; simp at hx
+      | cons a t ih =>
+        intro x hx
+        simp only [List.map_cons, List.zip_cons_cons, List.mem_cons] at hx
+        rcases hx with rfl | hx
+        · rfl
+        · exact ih x hx
+    exact this l x hm
+
+
 /-! ### lexicographic order on pairs -/
 
 /-- `a ≥ b` lexicographically, from two `≤` relations -/
